@@ -51,6 +51,7 @@ pub fn option_lists() -> Vec<Vec<(u16, B)>> {
     for l in [63usize, 64, 65, 127, 128, 129, 255, 256, 257, 1023, 1024, 4096, 20000] {
         out.push(vec![(10, gen::bytes_n(l, 1))]);
     }
+    out.extend(gen::opt_many_codes().into_iter().map(|o| o.options));
     out
 }
 
